@@ -27,7 +27,7 @@ fn judge(plan: &ClientPlan, run: &client::ClientRun, out: &mut RunOut) {
             OpResult::Hang => {
                 // where was the client waiting?
                 let pt = run.pt.lock().unwrap();
-                let stage = match pt.fired.iter().filter(|f| f.kind == FaultKind::Silence).last() {
+                let stage = match pt.fired.iter().filter(|f| matches!(f.kind, FaultKind::Silence | FaultKind::StallMid(_) | FaultKind::Junk)).last() {
                     Some(f) => {
                         let hs = matches!(f.during, (0x06, 0x00) | (0x0f, 0xa1)) && f.point <= 4;
                         if hs {
@@ -155,7 +155,8 @@ impl Check for C10 {
                 p.faults = vec![FaultSpec {
                     conn: 0,
                     point,
-                    kind: FaultKind::Silence,
+                    // a stall before the packet, or inside it (alternating with the later-behaviour index)
+                    kind: if (i / 4 + i) % 3 == 2 { FaultKind::StallMid(1 + (i % 5) as u16) } else { FaultKind::Silence },
                 }];
                 match later {
                     Later::Healthy => {}
